@@ -1,20 +1,49 @@
 import TinsModel.Matching.Spec
 /-
   Replies as packets (property C14): a reply is a stack of `RLayer`s with the matched fields explicit and every
-  other header field free; `serR` lays it out on the wire (RFC layouts, IPv4 without options, TCP without
-  options, IPv6 without extension headers); `mirror r` is the mirrored reply of the request `r`.
+  other header field, every option list, every extension-header chain and every payload free; `serR` lays it out on
+  the wire (RFC layouts: IPv4 with any option list, TCP with any option list, IPv6 with any chain of hop-by-hop /
+  routing / fragment / destination-options / mobility headers, RadioTap of any length); `mirror r` is the canonical
+  mirrored reply of the request `r`, `isMirror r m` says that `m` is *a* mirrored reply of `r` (matched fields as
+  in the mirror, everything else arbitrary) or an ICMP destination unreachable quoting `r`'s IPv4 header.
 -/
 namespace Tins.Matching
 
+/-- one IPv6 extension header of a reply: `kind` is its own type (announced by the header in front of it),
+    `lenB` its second octet, `body` the octets after the first two -/
+structure Ext where
+  kind : UInt8
+  lenB : UInt8
+  body : Bytes
+deriving Repr, DecidableEq
+
+/-- how a VLAN tag is announced by the layer in front of it -/
+inductive TPID where
+  | ctag | stag | old
+deriving Repr, DecidableEq
+
+def TPID.bytes : TPID → Bytes
+  | .ctag => [0x81, 0x00]
+  | .stag => [0x88, 0xa8]
+  | .old => [0x91, 0x00]
+
 inductive RLayer where
   | eth (dst src : Bytes)
-  | vlan (tci : Bytes)
-  /-- `pre`: tos, total length, id, flags + fragment offset, ttl (8 bytes); header checksum (2 bytes) -/
-  | ip4 (pre cksum src dst : Bytes)
+  /-- `len`: the 802.3 length field (2 bytes) -/
+  | dot3 (dst src len : Bytes)
+  /-- `tpid`: the tag protocol identifier in front of the tag; `tci`: PCP, DEI, VLAN id (2 bytes) -/
+  | vlan (tpid : TPID) (tci : Bytes)
+  | loopback (family : Bytes)
+  /-- `vp`: version and pad (2 bytes); `body`: the first present word and everything else up to `it_len` -/
+  | radiotap (vp body : Bytes)
+  /-- `pre`: tos, total length, id, flags + fragment offset, ttl (8 bytes); header checksum (2 bytes);
+      `opts`: the option list (a multiple of 4 octets, at most 40) -/
+  | ip4 (pre cksum src dst opts : Bytes)
   /-- `pre`: rest of traffic class / flow label, payload length (5 bytes) -/
-  | ip6 (pre : Bytes) (hopLimit : UInt8) (src dst : Bytes)
-  /-- `seqack`: sequence and acknowledgement numbers (8 bytes); `tail`: flags, window, checksum, urgent (7 bytes) -/
-  | tcp (sport dport seqack tail : Bytes)
+  | ip6 (pre : Bytes) (hopLimit : UInt8) (src dst : Bytes) (exts : List Ext)
+  /-- `seqack`: sequence and acknowledgement numbers (8 bytes); `x2`: the reserved bits beside the data offset;
+      `tail`: flags (SYN-ACK, RST, … — not matched), window, checksum, urgent (7 bytes); `opts`: the option list -/
+  | tcp (sport dport seqack : Bytes) (x2 : UInt8) (tail opts : Bytes)
   /-- `lenck`: length and checksum (4 bytes) -/
   | udp (sport dport lenck : Bytes)
   /-- `codeck`: code and checksum (3 bytes) -/
@@ -22,70 +51,125 @@ inductive RLayer where
   | icmp6 (type : UInt8) (codeck id seq data : Bytes)
   /-- `rest`: flags and counts (10 bytes) followed by the records -/
   | dns (id rest : Bytes)
+  /-- `pre`: op, htype, hlen, hops (4 bytes); `rest`: secs … file (228 bytes) and the vendor area -/
+  | bootp (pre xid rest : Bytes)
+  | dhcpv6 (type : UInt8) (xid opts : Bytes)
+  /-- `pre`: htype, ptype, hlen, plen, opcode, sender hardware address (14 bytes) -/
+  | arp (pre spa tha tpa trail : Bytes)
   | payload (data : Bytes)
 deriving Repr, DecidableEq
 
 def etherTypeR : List RLayer → Bytes
-  | .vlan _ :: _ => [0x81, 0x00]
-  | .ip4 _ _ _ _ :: _ => [0x08, 0x00]
-  | .ip6 _ _ _ _ :: _ => [0x86, 0xdd]
+  | .vlan tp _ :: _ => tp.bytes
+  | .ip4 _ _ _ _ _ :: _ => [0x08, 0x00]
+  | .ip6 _ _ _ _ _ :: _ => [0x86, 0xdd]
+  | .arp _ _ _ _ _ :: _ => [0x08, 0x06]
   | _ => [0xff, 0xff]
 
 def protoR : List RLayer → UInt8
-  | .tcp _ _ _ _ :: _ => 6
+  | .tcp _ _ _ _ _ _ :: _ => 6
   | .udp _ _ _ :: _ => 17
   | .icmp _ _ _ _ _ :: _ => 1
   | .icmp6 _ _ _ _ _ :: _ => 58
   | _ => 61
 
+/-- the next-header value in front of a chain of extension headers that ends in protocol `p` -/
+def nextOf : List Ext → UInt8 → UInt8
+  | [], p => p
+  | e :: _, _ => e.kind
+
+/-- a chain of extension headers, the last one announcing protocol `p` -/
+def serExts : List Ext → UInt8 → Bytes
+  | [], _ => []
+  | e :: es, p => nextOf es p :: e.lenB :: (e.body ++ serExts es p)
+
+/-- version 4, header length 5 + |opts| / 4 words -/
+def vihl (opts : Bytes) : UInt8 := UInt8.ofNat (0x45 + opts.length / 4)
+
+/-- data offset 5 + |opts| / 4 words in the high nibble, the reserved bits in the low one -/
+def doffByte (x2 : UInt8) (opts : Bytes) : UInt8 := UInt8.ofNat ((5 + opts.length / 4) * 16 + x2.toNat % 16)
+
 /-- wire format of a reply -/
 def serR : List RLayer → Bytes
   | [] => []
   | .eth d s :: m => d ++ (s ++ (etherTypeR m ++ serR m))
-  | .vlan tci :: m => tci ++ (etherTypeR m ++ serR m)
-  | .ip4 pre ck s d :: m => 0x45 :: (pre ++ (protoR m :: (ck ++ (s ++ (d ++ serR m)))))
-  | .ip6 pre hl s d :: m => 0x60 :: (pre ++ (protoR m :: hl :: (s ++ (d ++ serR m))))
-  | .tcp sp dp sa tl :: m => sp ++ (dp ++ (sa ++ (0x50 :: (tl ++ serR m))))
+  | .dot3 d s l :: m => d ++ (s ++ (l ++ serR m))
+  | .vlan _ tci :: m => tci ++ (etherTypeR m ++ serR m)
+  | .loopback f :: m => f ++ serR m
+  | .radiotap vp body :: m =>
+    vp ++ (UInt8.ofNat ((body.length + 4) % 256) :: UInt8.ofNat ((body.length + 4) / 256) :: (body ++ serR m))
+  | .ip4 pre ck s d opts :: m => vihl opts :: (pre ++ (protoR m :: (ck ++ (s ++ (d ++ (opts ++ serR m))))))
+  | .ip6 pre hl s d exts :: m =>
+    0x60 :: (pre ++ (nextOf exts (protoR m) :: hl :: (s ++ (d ++ (serExts exts (protoR m) ++ serR m)))))
+  | .tcp sp dp sa x2 tl opts :: m => sp ++ (dp ++ (sa ++ (doffByte x2 opts :: (tl ++ (opts ++ serR m)))))
   | .udp sp dp lc :: m => sp ++ (dp ++ (lc ++ serR m))
   | .icmp t cc id seq data :: _ => t :: (cc ++ (id ++ (seq ++ data)))
   | .icmp6 t cc id seq data :: _ => t :: (cc ++ (id ++ (seq ++ data)))
   | .dns id rest :: _ => id ++ rest
+  | .bootp pre xid rest :: _ => pre ++ (xid ++ rest)
+  | .dhcpv6 t xid opts :: _ => t :: (xid ++ opts)
+  | .arp pre spa tha tpa trail :: _ => pre ++ (spa ++ (tha ++ (tpa ++ trail)))
   | .payload data :: _ => data
 
 /-- the mirrored reply: addresses and ports swapped, the matching reply type with the same identifier and
-    sequence number, the same DNS id, the same VLAN tag; unmatched fields get fixed values -/
+    sequence number, the same DNS id / transaction id, the same VLAN tag; unmatched fields get fixed values -/
 def mirror : List SLayer → List RLayer
   | [] => []
   | .eth s d :: r => .eth s d :: mirror r                 -- reply destination := request source
-  | .vlan t :: r => .vlan t :: mirror r
-  | .ip4 hdr :: r => .ip4 [0, 0, 0, 0, 0, 0, 0, 64] [0, 0] (slice hdr 16 4) (slice hdr 12 4) :: mirror r
-  | .ip6 s d :: r => .ip6 [0, 0, 0, 0, 0] 64 d s :: mirror r
-  | .tcp sp dp :: r => .tcp dp sp [0, 0, 0, 0, 0, 0, 0, 0] [0x12, 0, 0, 0, 0, 0, 0] :: mirror r
+  | .dot3 s d :: r => .dot3 s d [0, 0] :: mirror r
+  | .vlan t :: r => .vlan .ctag t :: mirror r
+  | .loopback f :: r => .loopback f :: mirror r
+  | .radiotap :: r => .radiotap [0, 0] [0, 0, 0, 0] :: mirror r
+  | .ip4 hdr :: r => .ip4 [0, 0, 0, 0, 0, 0, 0, 64] [0, 0] (slice hdr 16 4) (slice hdr 12 4) [] :: mirror r
+  | .ip6 s d :: r => .ip6 [0, 0, 0, 0, 0] 64 d s [] :: mirror r
+  | .tcp sp dp :: r => .tcp dp sp [0, 0, 0, 0, 0, 0, 0, 0] 0 [0x12, 0, 0, 0, 0, 0, 0] [] :: mirror r
   | .udp sp dp :: r => .udp dp sp [0, 0, 0, 0] :: mirror r
   | .icmp k id seq :: _ => [.icmp k.replyType [0, 0, 0] id seq []]
   | .icmp6echo id seq :: _ => [.icmp6 129 [0, 0, 0] id seq []]
   | .dns id :: _ => [.dns id [0x80, 0, 0, 0, 0, 0, 0, 0, 0, 0]]
+  | .bootp xid :: _ => [.bootp [2, 1, 6, 0] xid (List.replicate 228 0)]
+  | .dhcpv6 hdr :: _ => [.dhcpv6 2 (slice hdr 1 3) []]
+  | .arp spa tpa :: _ => [.arp [0, 1, 8, 0, 6, 4, 0, 2, 0, 0, 0, 0, 0, 0] tpa [0, 0, 0, 0, 0, 0] spa []]
   | .payload :: _ => [.payload []]
-  | .dot3 _ _ :: _ => []
-  | .radiotap :: _ => []
 
-/-- the reply has the layer structure of the request, with well-formed field widths, and is not an ICMP
-    destination-unreachable quoting the request (answered by a third party, outside the relation) -/
+/-- the second kind of accepted reply, at packet level: what follows the IPv4 header is an ICMP message (protocol 1)
+    of type 3 — destination unreachable, any code, any checksum, any unused / next-hop-MTU word — at least 28 octets
+    long, whose quoted datagram (octets 8 … 27) is the 20-octet header of the request; anything may follow -/
+def quotes (hdr : Bytes) (m : List RLayer) : Bool :=
+  protoR m == 1 && decide (28 ≤ (serR m).length) && (serR m).getD 0 0 == 3 && slice (serR m) 8 20 == hdr
+
+/-- a well-formed extension header of the kinds the walk follows; a fragment header is that of a first fragment -/
+def extOk (e : Ext) : Bool :=
+  v6Walkable e.kind && e.body.length == e.lenB.toNat * 8 + 6 &&
+  (e.kind != 44 || (e.lenB == 0 && e.body.getD 0 0 == 0 && (e.body.getD 1 0).toNat / 8 == 0))
+
+/-- the reply has the layer structure of the request, with well-formed field widths -/
 def shape : List SLayer → List RLayer → Bool
   | [], _ => true
   | .payload :: _, _ => true
   | .eth _ _ :: r, .eth rd rs :: m => rd.length == 6 && rs.length == 6 && shape r m
-  | .vlan _ :: r, .vlan t :: m => t.length == 2 && shape r m
-  | .ip4 hdr :: r, .ip4 pre ck s d :: m =>
+  | .dot3 _ _ :: r, .dot3 rd rs l :: m => rd.length == 6 && rs.length == 6 && l.length == 2 && shape r m
+  | .vlan _ :: r, .vlan _ t :: m => t.length == 2 && shape r m
+  | .loopback _ :: r, .loopback f :: m => f.length == 4 && shape r m
+  | .radiotap :: r, .radiotap vp body :: m =>
+    vp.length == 2 && decide (4 ≤ body.length) && decide (body.length + 4 < 65536) && shape r m
+  | .ip4 hdr :: r, .ip4 pre ck s d opts :: m =>
     pre.length == 8 && ck.length == 2 && s.length == 4 && d.length == 4 &&
-    !quotesRequest hdr (serR (.ip4 pre ck s d :: m)) 20 && shape r m
-  | .ip6 _ _ :: r, .ip6 pre _ s d :: m => pre.length == 5 && s.length == 16 && d.length == 16 && shape r m
-  | .tcp _ _ :: r, .tcp sp dp sa tl :: m =>
-    sp.length == 2 && dp.length == 2 && sa.length == 8 && tl.length == 7 && shape r m
+    opts.length % 4 == 0 && decide (opts.length ≤ 40) && (quotes hdr m || shape r m)
+  | .ip6 _ _ :: r, .ip6 pre _ s d exts :: m =>
+    pre.length == 5 && s.length == 16 && d.length == 16 && exts.all extOk &&
+    (exts.isEmpty || !(serR m).isEmpty) && shape r m
+  | .tcp _ _ :: r, .tcp sp dp sa _ tl opts :: m =>
+    sp.length == 2 && dp.length == 2 && sa.length == 8 && tl.length == 7 &&
+    opts.length % 4 == 0 && decide (opts.length ≤ 40) && shape r m
   | .udp _ _ :: r, .udp sp dp lc :: m => sp.length == 2 && dp.length == 2 && lc.length == 4 && shape r m
   | .icmp _ _ _ :: _, .icmp _ cc id seq _ :: _ => cc.length == 3 && id.length == 2 && seq.length == 2
   | .icmp6echo _ _ :: _, .icmp6 _ cc id seq _ :: _ => cc.length == 3 && id.length == 2 && seq.length == 2
   | .dns _ :: _, .dns id rest :: _ => id.length == 2 && decide (10 ≤ rest.length)
+  | .bootp _ :: _, .bootp pre xid rest :: _ => pre.length == 4 && xid.length == 4 && decide (228 ≤ rest.length)
+  | .dhcpv6 hdr :: _, .dhcpv6 _ xid _ :: _ => !isRelayType (hdr.getD 0 0) && xid.length == 3
+  | .arp _ _ :: _, .arp pre spa tha tpa _ :: _ =>
+    pre.length == 14 && spa.length == 4 && tha.length == 6 && tpa.length == 4
   | _, _ => false
 
 /-- what the specification demands of a reply given as a packet (field level, no bytes) -/
@@ -93,12 +177,16 @@ def verdictR : List SLayer → List RLayer → Verdict
   | [], _ => .accept
   | .payload :: _, _ => .accept
   | .eth s d :: r, .eth rd rs :: m => field (rd == s) true (field (rs == d) (!macIsGroup d) (verdictR r m))
-  | .vlan tci :: r, .vlan t :: m => field (vid t == vid tci) true (verdictR r m)
-  | .ip4 hdr :: r, .ip4 _ _ rs rd :: m =>
+  | .dot3 s d :: r, .dot3 rd rs _ :: m => field (rd == s) true (field (rs == d) (!macIsGroup d) (verdictR r m))
+  | .vlan tci :: r, .vlan _ t :: m => field (vid t == vid tci) true (verdictR r m)
+  | .loopback f :: r, .loopback rf :: m => if rf == f then verdictR r m else .unspec
+  | .radiotap :: r, .radiotap _ _ :: m => verdictR r m
+  | .ip4 hdr :: r, .ip4 _ _ rs rd _ :: m =>
+    if quotes hdr m then .accept else
     field (rd == slice hdr 12 4) (slice hdr 12 4 != [0, 0, 0, 0])
       (field (rs == slice hdr 16 4) (!ip4IsGroup (slice hdr 16 4)) (verdictR r m))
-  | .ip6 s d :: r, .ip6 _ _ rs rd :: m => field (rd == s) true (field (rs == d) (!ip6IsMulticast d) (verdictR r m))
-  | .tcp sp dp :: r, .tcp rsp rdp _ _ :: m => field (rsp == dp) true (field (rdp == sp) true (verdictR r m))
+  | .ip6 s d :: r, .ip6 _ _ rs rd _ :: m => field (rd == s) true (field (rs == d) (!ip6IsMulticast d) (verdictR r m))
+  | .tcp sp dp :: r, .tcp rsp rdp _ _ _ _ :: m => field (rsp == dp) true (field (rdp == sp) true (verdictR r m))
   | .udp sp dp :: r, .udp rsp rdp _ :: m =>
     field (rsp == dp) true (field (rdp == sp) true (if r.isEmpty then .unspec else verdictR r m))
   | .icmp k id seq :: _, .icmp t _ rid rseq _ :: _ =>
@@ -106,31 +194,71 @@ def verdictR : List SLayer → List RLayer → Verdict
   | .icmp6echo id seq :: _, .icmp6 t _ rid rseq _ :: _ =>
     field (t == 129) true (field (rid == id) true (field (rseq == seq) true .accept))
   | .dns id :: _, .dns rid _ :: _ => field (rid == id) true .accept
+  | .bootp xid :: _, .bootp _ rx _ :: _ => field (rx == xid) true .accept
+  | .dhcpv6 hdr :: _, .dhcpv6 t rx _ :: _ =>
+    field (!isRelayType t) true (field (rx == slice hdr 1 3) true .accept)
+  | .arp spa tpa :: _, .arp _ rspa _ rtpa _ :: _ => field (rspa == tpa) true (field (rtpa == spa) true .accept)
   | _, _ => .unspec
 
 /-- the reply differs from the mirrored reply in a matched field (address, port, identifier, sequence number,
-    reply type, DNS id, VLAN id) -/
+    reply type, DNS id, VLAN id, BootP / DHCPv6 transaction id, DHCPv6 relay type, ARP protocol address) and is not
+    an ICMP destination unreachable quoting the request -/
 def matchedFieldDiffers : List SLayer → List RLayer → Bool
   | .eth s d :: r, .eth rd rs :: m => rd != s || (!macIsGroup d && rs != d) || matchedFieldDiffers r m
-  | .vlan tci :: r, .vlan t :: m => vid t != vid tci || matchedFieldDiffers r m
-  | .ip4 hdr :: r, .ip4 _ _ rs rd :: m =>
-    (slice hdr 12 4 != [0, 0, 0, 0] && rd != slice hdr 12 4) ||
-    (!ip4IsGroup (slice hdr 16 4) && rs != slice hdr 16 4) || matchedFieldDiffers r m
-  | .ip6 s d :: r, .ip6 _ _ rs rd :: m => rd != s || (!ip6IsMulticast d && rs != d) || matchedFieldDiffers r m
-  | .tcp sp dp :: r, .tcp rsp rdp _ _ :: m => rsp != dp || rdp != sp || matchedFieldDiffers r m
+  | .dot3 s d :: r, .dot3 rd rs _ :: m => rd != s || (!macIsGroup d && rs != d) || matchedFieldDiffers r m
+  | .vlan tci :: r, .vlan _ t :: m => vid t != vid tci || matchedFieldDiffers r m
+  | .loopback f :: r, .loopback rf :: m => rf == f && matchedFieldDiffers r m
+  | .radiotap :: r, .radiotap _ _ :: m => matchedFieldDiffers r m
+  | .ip4 hdr :: r, .ip4 _ _ rs rd _ :: m =>
+    !quotes hdr m &&
+    ((slice hdr 12 4 != [0, 0, 0, 0] && rd != slice hdr 12 4) ||
+     (!ip4IsGroup (slice hdr 16 4) && rs != slice hdr 16 4) || matchedFieldDiffers r m)
+  | .ip6 s d :: r, .ip6 _ _ rs rd _ :: m => rd != s || (!ip6IsMulticast d && rs != d) || matchedFieldDiffers r m
+  | .tcp sp dp :: r, .tcp rsp rdp _ _ _ _ :: m => rsp != dp || rdp != sp || matchedFieldDiffers r m
   | .udp sp dp :: r, .udp rsp rdp _ :: m => rsp != dp || rdp != sp || matchedFieldDiffers r m
   | .icmp k id seq :: _, .icmp t _ rid rseq _ :: _ => t != k.replyType || rid != id || rseq != seq
   | .icmp6echo id seq :: _, .icmp6 t _ rid rseq _ :: _ => t != 129 || rid != id || rseq != seq
   | .dns id :: _, .dns rid _ :: _ => rid != id
+  | .bootp xid :: _, .bootp _ rx _ :: _ => rx != xid
+  | .dhcpv6 hdr :: _, .dhcpv6 t rx _ :: _ => isRelayType t || rx != slice hdr 1 3
+  | .arp spa tpa :: _, .arp _ rspa _ rtpa _ :: _ => rspa != tpa || rtpa != spa
   | _, _ => false
 
-/-- a request of the fragment the property speaks about: link (Ethernet, 802.1Q tags) / IPv4 or IPv6 /
-    TCP (with or without payload), UDP with a payload or DNS, ICMP or ICMPv6 query — in any nesting that has
-    these field widths; UDP is followed by something -/
+/-- `m` is a mirrored reply of `r`: every address, port and identifier is the mirrored one (every other field,
+    option, extension header and payload octet is arbitrary), or — under an IPv4 layer — `m` continues with an ICMP
+    destination unreachable quoting the request's header -/
+def isMirror : List SLayer → List RLayer → Bool
+  | [], _ => true
+  | .payload :: _, _ => true
+  | .eth s d :: r, .eth rd rs :: m => rd == s && rs == d && isMirror r m
+  | .dot3 s d :: r, .dot3 rd rs _ :: m => rd == s && rs == d && isMirror r m
+  | .vlan tci :: r, .vlan _ t :: m => vid t == vid tci && isMirror r m
+  | .loopback f :: r, .loopback rf :: m => rf == f && isMirror r m
+  | .radiotap :: r, .radiotap _ _ :: m => isMirror r m
+  | .ip4 hdr :: r, .ip4 _ _ rs rd _ :: m =>
+    quotes hdr m || (rd == slice hdr 12 4 && rs == slice hdr 16 4 && isMirror r m)
+  | .ip6 s d :: r, .ip6 _ _ rs rd _ :: m => rd == s && rs == d && isMirror r m
+  | .tcp sp dp :: r, .tcp rsp rdp _ _ _ _ :: m => rsp == dp && rdp == sp && isMirror r m
+  | .udp sp dp :: r, .udp rsp rdp _ :: m => rsp == dp && rdp == sp && !r.isEmpty && isMirror r m
+  | .icmp k id seq :: _, .icmp t _ rid rseq _ :: _ => t == k.replyType && rid == id && rseq == seq
+  | .icmp6echo id seq :: _, .icmp6 t _ rid rseq _ :: _ => t == 129 && rid == id && rseq == seq
+  | .dns id :: _, .dns rid _ :: _ => rid == id
+  | .bootp xid :: _, .bootp _ rx _ :: _ => rx == xid
+  | .dhcpv6 hdr :: _, .dhcpv6 t rx _ :: _ => !isRelayType t && rx == slice hdr 1 3
+  | .arp spa tpa :: _, .arp _ rspa _ rtpa _ :: _ => rspa == tpa && rtpa == spa
+  | _, _ => false
+
+/-- a request of the fragment the property speaks about: link (Ethernet, 802.3, 802.1Q tags — nested any number of
+    times —, loopback, RadioTap) / IPv4 or IPv6 / TCP (with or without payload), UDP with a payload, DNS, BootP / DHCP
+    or DHCPv6, ICMP or ICMPv6 query; ARP — in any nesting that has these field widths; UDP is followed by something;
+    a DHCPv6 request is a client / server message -/
 def wfReq : List SLayer → Bool
   | [] => true
   | .eth s d :: r => s.length == 6 && d.length == 6 && wfReq r
+  | .dot3 s d :: r => s.length == 6 && d.length == 6 && wfReq r
   | .vlan t :: r => t.length == 2 && wfReq r
+  | .loopback f :: r => f.length == 4 && wfReq r
+  | .radiotap :: r => wfReq r
   | .ip4 hdr :: r => hdr.length == 20 && wfReq r
   | .ip6 s d :: r => s.length == 16 && d.length == 16 && wfReq r
   | .tcp sp dp :: r => sp.length == 2 && dp.length == 2 && wfReq r
@@ -138,8 +266,9 @@ def wfReq : List SLayer → Bool
   | .icmp _ id seq :: _ => id.length == 2 && seq.length == 2
   | .icmp6echo id seq :: _ => id.length == 2 && seq.length == 2
   | .dns id :: _ => id.length == 2
+  | .bootp xid :: _ => xid.length == 4
+  | .dhcpv6 hdr :: _ => hdr.length == 4 && !isRelayType (hdr.getD 0 0)
+  | .arp spa tpa :: _ => spa.length == 4 && tpa.length == 4
   | .payload :: _ => true
-  | .dot3 _ _ :: _ => false
-  | .radiotap :: _ => false
 
 end Tins.Matching
